@@ -132,7 +132,7 @@ func (c *Ctx) power() *powerSrc {
 			continue
 		}
 		res := fn.Signature.Results()
-		if res.Len() != 1 || !types.Identical(res.At(0).Type(), types.Typ[types.Int]) {
+		if res.Len() != 1 || !isPlainInt(res.At(0).Type()) {
 			continue
 		}
 		// it must be what parseExpression compares its parameter with
@@ -1246,4 +1246,10 @@ func ruleTokens(c *Ctx) *RuleResult {
 		}
 	}
 	return r
+}
+
+// isPlainInt: int or a named type over int (a `precedence` type).
+func isPlainInt(t types.Type) bool {
+	b, ok := t.Underlying().(*types.Basic)
+	return ok && b.Kind() == types.Int
 }
